@@ -106,7 +106,7 @@ func RunSync(w *tr.Writer, st *SyncStats, tid int, plan SyncPlan, rnd *rand.Rand
 	t := util.NewMerklePatriciaTrie(full, util.Sequence(vers[0]), nil, NewTxnCache())
 	for i, it := range items {
 		t.SetVersion(util.Sequence(vers[i%len(vers)]))
-		if _, err := t.Insert(util.Path(append([]byte(nil), it.Path...)), Val(it.Value)); err != nil {
+		if _, err := InsertScribbled(t, it.Path, it.Value); err != nil {
 			panic(err)
 		}
 	}
